@@ -340,7 +340,8 @@ class PlainQuantity(Generic[MagnitudeT], PrettyIPython, SharedRegistryObject):
 
         return not bool(tmp.dimensionality)
 
-    _dimensionality: UnitsContainerT | None = None
+    #: Memo of (units, dimensionality of those units).
+    _dimensionality: tuple[UnitsContainerT, UnitsContainerT] | None = None
 
     @property
     def dimensionality(self) -> UnitsContainerT:
@@ -350,10 +351,14 @@ class PlainQuantity(Generic[MagnitudeT], PrettyIPython, SharedRegistryObject):
         dict
             Dimensionality of the PlainQuantity, e.g. ``{length: 1, time: -1}``
         """
-        if self._dimensionality is None:
-            self._dimensionality = self._REGISTRY._get_dimensionality(self._units)
+        # The units of a quantity change in place (ito with a context, in-place
+        # arithmetic): the memo only holds for the units it was computed from.
+        memo = self._dimensionality
+        if memo is None or memo[0] is not self._units:
+            memo = (self._units, self._REGISTRY._get_dimensionality(self._units))
+            self._dimensionality = memo
 
-        return self._dimensionality
+        return memo[1]
 
     def check(self, dimension: UnitLike) -> bool:
         """Return true if the quantity's dimension matches passed dimension."""
